@@ -1,7 +1,10 @@
 import Gittuf.Props.C05
 import Gittuf.Proofs.SigComplete
+import Gittuf.Proofs.SigCompleteGit
 #print axioms Gittuf.C05_sound
 #print axioms Gittuf.C05_invalid
 #print axioms Gittuf.C05_accept_satisfies
 #print axioms Gittuf.C05_unmet_credited
 #print axioms Gittuf.C05_complete_env
+#print axioms Gittuf.C05_complete
+#print axioms Gittuf.disjointKeys_of_B
